@@ -131,3 +131,9 @@ Definition rfc_faults (expected local_id : Z) (ours theirs : adv) : list (Z * Z)
   ++ (if (p_peer_as p =? p_local_as p) && (a_id theirs =? local_id) then [(2, 3)] else [])
   ++ (if (0 <? a_hold theirs) && (a_hold theirs <? 3) then [(2, 6)] else [])
   ++ ms_faults ours theirs.
+
+(* RFC 9072 s.2, on the octets that follow the BGP Identifier: the extended encoding is in use iff the Non-Ext OP
+   Type octet (the second) is 255; the Non-Ext OP Len octet (the first) is then any value but 0 ("SHOULD be 255",
+   "MUST NOT be 0", "MUST be ignored on receipt once the use of the extended encoding has been determined"), and the
+   Extended Opt. Parm. Length is the two octets after them. *)
+Definition rfc9072_extended (d : list Z) : bool := negb (nth 0 d 0 =? 0) && (nth 1 d 0 =? 255).
